@@ -239,7 +239,8 @@ Init == /\ \E i \in DOMAIN Traces : tr = Traces[i]
 Next == /\ l <= Len(tr.events)
         /\ LET e   == tr.events[l]
                got == FromProj(e.post)
-               x   == Expected(D, e, got)
+               \* (a logged state with a cycle - reported by Inv_WF - is taken over as it is: the step functions would not terminate on it)
+               x   == IF EdgesWF(D) /\ EdgesDescend(D) THEN Expected(D, e, got) ELSE [Res(got, e.ret) EXCEPT !.adopt = TRUE]
            IN /\ bad' = (IF ProjWF(e.post) THEN {} ELSE {"PROJ"})
                           \cup (IF MtsOK(D, e) THEN {} ELSE {"MTS"})
                           \cup Mismatch(x, got, e)
@@ -283,7 +284,7 @@ Inv_LOOP   == Report("LOOP",   "LOOP" \notin bad)
 Inv_WORK   == Report("WORK",   "WORK" \notin bad)
 
 \* state invariants on every logged state
-Inv_WF == Report("WF", Started => RootOK(S, D) /\ EdgesWF(D) /\ NodesArePercolatedTraps(S, D))
+Inv_WF == Report("WF", Started => RootOK(S, D) /\ EdgesWF(D) /\ EdgesDescend(D) /\ NodesArePercolatedTraps(S, D))
 Inv_IndexExact == Report("IndexExact", Started => IndexExact(D))
 Inv_PartialFaithful == Report("PartialFaithful", Started => PartialFaithfulS(S, D, plain))
 Inv_PlainOnly == Report("PlainOnly", (Started /\ plain) => \A n \in Ids(D) : D.nodes[n].how # "other" /\ ~D.nodes[n].skipped)
